@@ -423,6 +423,114 @@ def run_e2_rule():
             'wall_s': round(time.time() - t0, 2)}
 
 
+def run_e2_wiring():
+    """E2: checker.check translated from its current source: which options
+    reach which stream of which run.  Unbounded strings; the two execute()
+    calls return arbitrary records."""
+    import time
+    import z3
+    from ddsmt import checker
+    from vlib import py2smt as P
+    t0 = time.time()
+
+    def rec(pfx):
+        return P.Record(exit=P.OptInt(pfx + 'exit'), out=P.OptStr(pfx + 'out'),
+                        err=P.OptStr(pfx + 'err'), runtime=None)
+    g, gc, r, rc = rec('g_'), rec('gc_'), rec('r_'), rec('rc_')
+    B = {k: z3.Bool(k) for k in ('ignore_output', 'ignore_out', 'ignore_err',
+                                 'ignore_output_cc')}
+    M = {k: P.OptStr(k) for k in ('match_out', 'match_err', 'match_out_cc',
+                                  'match_err_cc')}
+    cmd = P.OptList('cmd')
+    cmd_cc = P.OptList('cmd_cc')
+    args = P.Record(cmd=cmd, cmd_cc=cmd_cc, timeout=None, timeout_cc=None,
+                    **B, **M)
+    calls = []
+
+    def execute(ev, a, guard):
+        calls.append((a[0], guard))
+        return r if a[0] is cmd else (rc if a[0] is cmd_cc else None)
+
+    env = {'filename': None, '__args__': args, '__GOLDEN': g,
+           '__GOLDEN_CC': gc,
+           '__calls__': {'execute': execute,
+                         'matches_golden': P.inliner(checker.matches_golden)}}
+    base = {'status': 'UNKNOWN', 'cex': None, 'paths': 0, 'paths_ok': 0,
+            'samples': [], 'solver_checks': 0, 'solver_seconds': 0.0}
+    try:
+        impl, errs = P.translate(checker.check, env)
+    except P.Unsupported as e:
+        return dict(base, engine_error=f'check() left the translatable '
+                    f'subset: {e}', wall_s=round(time.time() - t0, 2))
+
+    def stream_ok(ign, match, gs, rs):
+        return z3.Or(ign, z3.If(match.truthy(),
+                                z3.And(z3.Not(rs.none),
+                                       z3.Contains(rs.s, match.s)),
+                                P._eq(gs, rs)))
+
+    def accept(gr, rr, io, ie, mo, me):
+        return z3.And(P._eq(rr.fields['exit'], gr.fields['exit']),
+                      stream_ok(io, mo, gr.fields['out'], rr.fields['out']),
+                      stream_ok(ie, me, gr.fields['err'], rr.fields['err']))
+    spec = z3.And(
+        accept(g, r, z3.Or(B['ignore_output'], B['ignore_out']),
+               z3.Or(B['ignore_output'], B['ignore_err']), M['match_out'],
+               M['match_err']),
+        z3.Implies(cmd_cc.nonempty,
+                   accept(gc, rc, B['ignore_output_cc'],
+                          B['ignore_output_cc'], M['match_out_cc'],
+                          M['match_err_cc'])))
+    results = []
+    cex = None
+    msg = None
+    for name, goal in (('equivalence with the documented rule', impl != spec),
+                       ('never raises', z3.Or(*errs) if errs
+                        else z3.BoolVal(False))):
+        sol = z3.Solver()
+        sol.set('timeout', 120000)
+        sol.add(goal)
+        rr_ = str(sol.check())
+        results.append({'obligation': name, 'result': rr_})
+        if rr_ == 'sat' and cex is None:
+            m = sol.model()
+
+            def sval(o):
+                return None if z3.is_true(m.eval(o.none, True)) else \
+                    m.eval(o.s, True).as_string()
+
+            def ival(o):
+                return None if z3.is_true(m.eval(o.none, True)) else \
+                    m.eval(o.i, True).as_long()
+            cex = {'has_cc': bool(z3.is_true(m.eval(cmd_cc.nonempty, True)))}
+            for k, v in B.items():
+                cex[k] = bool(z3.is_true(m.eval(v, True)))
+            for k, short in (('match_out', 'mo'), ('match_err', 'me'),
+                             ('match_out_cc', 'moc'), ('match_err_cc', 'mec')):
+                v = sval(M[k])
+                cex[short + '_none'] = v is None
+                cex[k] = v or ''
+            for pfx, rcd in (('g_', g), ('gc_', gc), ('r_', r), ('rc_', rc)):
+                cex[pfx + 'exit'] = ival(rcd.fields['exit'])
+                cex[pfx + 'out'] = sval(rcd.fields['out'])
+                cex[pfx + 'err'] = sval(rcd.fields['err'])
+            msg = (f'check(): {name} violated for {cex!r}')
+    unknown = [x for x in results if x['result'] not in ('sat', 'unsat')]
+    if not any(c[0] is cmd for c in calls):
+        unknown.append({'obligation': 'the command is executed',
+                        'result': 'execute(options.args().cmd, ..) not found'})
+    status = 'VIOLATED' if cex else ('UNKNOWN' if unknown else 'CONFIRMED')
+    return {'status': status, 'cex': cex,
+            'exc': {'type': 'Violation', 'msg': msg} if cex else None,
+            'paths': 2, 'paths_ok': 2 - len(unknown), 'samples': results,
+            'solver_checks': 2,
+            'solver_seconds': round(time.time() - t0, 2),
+            'engine_error': str(unknown) if unknown else None,
+            'queries': {'formula_size': len(str(impl)),
+                        'execute_calls': len(calls)},
+            'wall_s': round(time.time() - t0, 2)}
+
+
 def replay_e2(c):
     from ddsmt import checker
     g = checker.RunInfo(c['g_exit'], c['g_out'], c['g_err'], 1.0)
@@ -538,6 +646,9 @@ def partitions(tier):
     parts.append({'name': 'e2rule', 'kind': 'E2', 'run': run_e2_rule,
                   'budget_s': 300,
                   'bounds': {'strings': 'unbounded', 'streams': 'optional'}})
+    parts.append({'name': 'e2wiring', 'kind': 'E2', 'run': run_e2_wiring,
+                  'budget_s': 300,
+                  'bounds': {'strings': 'unbounded', 'streams': 'optional'}})
     parts.append({'name': 'unchecked', 'fn': make_unchecked(),
                   'budget_s': 100})
     parts.append({'name': 'argv', 'kind': 'choices', 'run': run_argv,
@@ -550,6 +661,8 @@ def replay(part, cex):
     try:
         if part == 'e2rule':
             return replay_e2(cex)
+        if part == 'e2wiring':
+            return _wiring_body(cex)
         if part.startswith('rule'):
             return replay_rule(cex)
         if part.startswith('wiring'):
